@@ -127,7 +127,10 @@ def run_case(case):
                          % (script, sr.metadata_only, exp)})
         return 'mdonly:%s' % exp, viol
 
-    s = open(os.path.join('/repo/tests', case['file']), 'rb').read()
+    if case.get('file') == '<generated>':
+        s = generated_message(case['counts'], case['compressed'])
+    else:
+        s = open(os.path.join('/repo/tests', case['file']), 'rb').read()
     msg = Decoder().process(s, file_path='F.bufr')
     q = case['query']
     script = 'a = ${%s}\nb = PBK_FILENAME\nc = PBK_BUFR_MESSAGE\n' % q
@@ -168,6 +171,32 @@ def run_case(case):
     return 'data:L%d:%s' % (level, 'nested' if l4 != l2 else 'flat'), viol
 
 
+def generated_message(counts, compressed):
+    """[001001, 1 02 000 031001 012001 002001, 005002] with the given replication count per subset (uncompressed) --
+    subsets that yield nothing / something for a query on the replicated elements"""
+    from mc.ref import codec, message, tables
+    B, D = tables.load(33)
+    descs = [1001, 102000, 31001, 12001, 2001, 5002]
+    nsub = len(counts)
+    cnt = [0]
+
+    def ch(info):
+        cnt[0] += 1
+        s_ = info['subset'] if not compressed else 0
+        if info.get('role') == 'factor':
+            v = counts[s_]
+        else:
+            v = (7 * cnt[0]) % ((1 << info['width']) - 1)
+        return [v] * nsub if compressed else v
+    buf, subs, notes, nb = codec.encode(B, D, descs, nsub, compressed, ch)
+    return message.build(message.Spec(descs=descs, nsub=nsub, compressed=compressed), buf)[0]
+
+
+GEN_COUNTS = [(0, 2), (2, 0), (1, 1), (0, 0), (0, 0, 1), (3,), (0,)]
+GEN_QUERIES = ['/102000/012001', '012001', '>002001', '/001001', '/102000.031001', '@[1]>012001', '@[-1]/102000/002001[0]',
+               '/102000/012001[-1]']
+
+
 def run_cases(cases):
     p = Partial()
     for case in cases:
@@ -205,6 +234,17 @@ def build_run_cases(tier):
             for arg in (None, 0, 1, 2, 4):
                 for pragma in (None, 0, 1, 2, 4):
                     cases.append({'kind': 'run', 'file': fn, 'query': q, 'arg': arg, 'pragma': pragma})
+    for counts in GEN_COUNTS:
+        for comp in (False, True):
+            if comp and len(set(counts)) > 1:
+                continue                      # compressed data share the replication count
+            for q in GEN_QUERIES:
+                if q.startswith('@[1]') and len(counts) < 2:
+                    continue
+                for arg in (None, 0, 1, 2, 4):
+                    for pragma in (None, 0, 2):
+                        cases.append({'kind': 'run', 'file': '<generated>', 'counts': list(counts), 'compressed': comp,
+                                      'query': q, 'arg': arg, 'pragma': pragma})
     return cases
 
 
